@@ -1306,7 +1306,7 @@ class Interp:
             a = [self.val(x) for x in args]
             if a and isinstance(a[0], tuple):
                 return a[0]     # copy/move construction
-            tok = ("rng", a[0] if a else None, len(self.events))
+            tok = ("rng", a[0] if a else None, "seeded")
             self.events.append(("rng_construct", a[0] if a else None))
             return tok
         if q.startswith("std::uniform_real_distribution"):
